@@ -447,7 +447,8 @@ def build(tier, seed):
     plan.explanation = (
         "The real bodies of bit_driver, edge_driver, maxcut, max_independent_set, min_vertex_cover, max_clique (qaoa/cost.py), x_mixer "
         "(qaoa/mixers.py) and LinearCombination.__add__ / __mul__ (= __rmul__) are executed symbolically (E1) for graphs whose node and edge "
-        "lists are sequences of SYMBOLIC length and for an arbitrary bitstring (a ghost set of nodes). Operators are records of Pauli words; "
+        "lists are sequences of SYMBOLIC length (networkx: node pairs; rustworkx for edge_driver / MIS / MVC: sorted index pairs read through "
+        "nodes()[i]) and for an arbitrary bitstring (a ghost set of nodes). Operators are records of Pauli words; "
         "the diagonal entry of a coefficient/operator list pair is the snoc-defined EV. edge_driver: one loop invariant per reward set on the "
         "real `for e in graph_edges` loops -- EV(coeffs, ops) == sum over the edges processed so far of the documented energy "
         "|reward|/4 - [colouring in reward], with the counts of 00 / mixed / 11 edges as independent snoc-defined counters; the 0- and "
@@ -483,11 +484,17 @@ def build(tier, seed):
         "copy(list) is a shallow copy; qp.math.cast_like([1.0], .) is [1.0]",
         "networkx.complement(G): same nodes, edge list a function of G's node and edge lists (COMPL, uninterpreted): max_clique's objective "
         "is stated over the complement's edge list without saying which pairs it contains",
+        "rustworkx: PyGraph.nodes() is the list of node payloads, edge_list() a list of index pairs; sorted(edge_list()) has the same length "
+        "and its elements are elements of edge_list() (used as: every pair of the sorted list indexes inside nodes(), given that every "
+        "pair of edge_list() does); the objective of the rustworkx cases is the sum over the SORTED index pairs mapped to node pairs",
         "python set(list of str) / list(set): only the length and the element of a singleton are used (any other indexing is refused)",
         "Wires(seq) of distinct labels iterates them in order (x_mixer)",
         "x_mixer / bit_flip_mixer inside cost.py are opaque builders (their results are compared by builder name and arguments)"]
     plan.unverified = [
-        "rustworkx inputs (sorted(graph.edge_list()), get_nvalue indirection): only the bounded native stand-ins cover the is_rx path",
+        "rustworkx inputs: edge_driver (reward sets {00}, {10,01}, {10,01,00}, {11,10,01}), max_independent_set and min_vertex_cover are proved "
+        "on the is_rx path; maxcut's and max_clique's rustworkx paths (identity_h over sorted index pairs, rx.complement) only by the bounded "
+        "native stand-ins; rustworkx graphs whose node indices are not 0..n-1 (nodes removed) are EXCLUDED by precondition -- there "
+        "graph_nodes[i] reads another node or raises IndexError (observation reported to the lead)",
         "max_weight_cycle, loss_hamiltonian, cycle_mixer, net_flow_constraint, out_flow_constraint (cycle.py): not covered",
         "xy_mixer, bit_flip_mixer: only the bounded native stand-ins (reference matrices)",
         "reward lists with repeated entries (edge_driver tests len(reward) before deduplicating)",
